@@ -4,7 +4,7 @@
       PDU: stmin_sec = b/1000 or (b-0xF0)/10000 ; int(stmin_sec * 1e9)   (protocol.py L158-161)
     The finite-range facts below are proved by vm_compute over the whole range (the bound is part
     of each statement); Print Assumptions lists only the kernel's primitive float / int63 types. *)
-From Coq Require Import ZArith List Bool.
+From Coq Require Import ZArith List Bool Lia.
 From Coq Require Import Floats.PrimFloat Floats.FloatOps Numbers.Cyclic.Int63.Uint63.
 Import ListNotations.
 Open Scope Z_scope.
@@ -38,6 +38,18 @@ Fixpoint zrange_acc (n : nat) (hi : Z) (acc : list Z) : list Z :=
   end.
 (** [zrange lo count] = lo, lo+1, ..., lo+count-1 *)
 Definition zrange (lo : Z) (count : nat) : list Z := zrange_acc count (lo + Z.of_nat count - 1) [].
+
+Lemma zrange_acc_In n : forall hi acc x,
+  In x acc \/ (hi - Z.of_nat n < x <= hi) -> In x (zrange_acc n hi acc).
+Proof.
+  induction n as [|n IH]; intros hi acc x H; simpl.
+  - destruct H as [H|H]; [exact H|lia].
+  - apply IH. destruct H as [H|H]; [left; right; exact H|].
+    destruct (Z.eq_dec x hi) as [->|Hne]; [left; left; reflexivity|right; lia].
+Qed.
+
+Lemma zrange_In lo count x : lo <= x < lo + Z.of_nat count -> In x (zrange lo count).
+Proof. intros H. unfold zrange. apply zrange_acc_In. right. lia. Qed.
 
 (** The conversion is never more than 1 ns below the exact value and never above it. *)
 Lemma to_ns_bounds_table :
